@@ -8,6 +8,8 @@ Init == /\ a \in Singles(NEnt)
 Next == UNCHANGED <<a, b>>
 Spec == Init /\ [][Next]_<<a, b>>
 Emit == PrintT(<<"LIE", ToJson(IF a = b THEN <<a>> ELSE <<a, b>>)>>)
+\* the injection product is printed once (with the first state evaluated)
+EmitInjections == (~Pairs /\ a = CHOOSE x \in Singles(NEnt) : TRUE) => \A i \in Injections : PrintT(<<"INJ", ToJson(i)>>)
 \* sanity of the generator: every lie names a field that fits its record header, every width has boundary classes
 Sane == a.w \in {1, 2, 4, 8} /\ a.off + a.w <= 56 /\ Cardinality(Vals([w |-> a.w, f |-> a.f])) >= 5
 =============================================================================
